@@ -577,7 +577,7 @@ def run(ctx):
     else:
         scs = [norm(it) for c in diff.load_corpus("C46") for it in c.get("items", [])]
         scs += FIXED
-        scs += gen_scenarios(rng, 800 if tier == "quick" else 8000)
+        scs += gen_scenarios(rng, 600 if tier == "quick" else 8000)
     cases = [make_case("s%d" % (i // chunk), scs[i:i + chunk]) for i in range(0, len(scs), chunk)]
     errs = error_cases() if rep is None else None
     t0 = time.time()
